@@ -225,11 +225,25 @@ def run(ctx):
         env.put("l", lst)
         want = sorted(items, key=lambda x: Fraction(x[1][0][1]))
         ctx.seen(("sorted", combo), nontrivial=len(combo) >= 2)
-        for src in ("sorted(l, key = fn(x) x[0])", "sorted(l, cmp = fn(x, y) compare(x[0], y[0]))"):
+        want_desc = sorted(items, key=lambda x: -Fraction(x[1][0][1]))       # stable, descending by key
+        for src in ("sorted(l, key = fn(x) x[0])", "sorted(l, cmp = fn(x, y) compare(x[0], y[0]))",
+                    # key AND cmp together (positional and named, the built-in compare and user-defined ones, early returns in the callbacks)
+                    "sorted(l, compare, fn(x) x[0])", "sorted(l, cmp = fn(a, b) compare(a, b), key = fn(x) x[0])",
+                    "sorted(l, key = fn(x) do if x[0] > 1 then return x[0]; x[0] end)",
+                    "sorted(l, cmp = fn(x, y) do if x[0] < y[0] then return -1; if x[0] > y[0] then return 1; 0 end)",
+                    "DESC sorted(l, cmp = fn(a, b) compare(b, a), key = fn(x) x[0])", "DESC sorted(l, fn(a, b) 0 - compare(a, b), fn(x) x[0])",
+                    "DESC sorted(l, cmp = fn(x, y) compare(y[0], x[0]))", "DESC sorted(l, key = fn(x) 0 - x[0])"):
+            want_here = want
+            if src.startswith("DESC "):
+                src, want_here = src[5:], want_desc
             out = common.run_program(it, src)
             ctx.count("sorted_programs")
             got = proto.from_ckl(out[2])[1] if out[0] == 'val' else None
-            if got is None or [proto.enum_form(x) for x in got] != [proto.enum_form(x) for x in want]:
+            if got is None or [proto.enum_form(x) for x in got] != [proto.enum_form(x) for x in want_here]:
+                ctx.violation("oracle", f"`{src}` on {proto.show(('l', tuple(items)))} gives {out[1] if len(out) > 1 else out}, expected the stable sort {proto.show(('l', tuple(want_here)))}",
+                              {"op": "sorted", "src": src, "l": proto.to_sx(('l', tuple(items)))})
+                continue
+            if False:
                 ctx.violation("oracle", f"`{src}` on {proto.show(('l', tuple(items)))} gives {out[1] if len(out) > 1 else out}, expected the stable sort {proto.show(('l', tuple(want)))}",
                               {"op": "sorted", "src": src, "l": proto.to_sx(('l', tuple(items)))})
         if list(proto.from_ckl(env.get("l"))[1]) != items:
